@@ -59,6 +59,13 @@ theorem mem_revIdx {α : Type} (l : List α) (x : α × Nat) : x ∈ l.zipIdx.re
   rw [List.mem_reverse, List.mem_zipIdx_iff_getElem?]
 
 /-! ### specification vocabulary -/
+
+/-- legal lookback distance lists: any length, any order, duplicates allowed, every distance ≥ 1 -/
+def LegalDists (ds : List Int) : Prop := ∀ d ∈ ds, 1 ≤ d
+
+/-- valid pianoroll events: strictly increasing tuples of pitches below `input_size` -/
+def PrEvent (n : Nat) (ev : List Nat) : Prop := ev.Pairwise (· < ·) ∧ ∀ p ∈ ev, p < n
+
 section
 variable {ε : Type} [DecidableEq ε]
 
@@ -210,4 +217,946 @@ theorem virtualRepeat_eq (dflt : ε) (ds : List Int) (evs : List ε) (p : Nat) (
     · simp [h, pure, Except.pure]
 
 end
+
+/-! ### the shared shape of the lookback / key-melody label -/
+section
+variable {ε : Type} [DecidableEq ε]
+
+/-- the common shape of `events_to_label` of the lookback and key-melody encoders -/
+def seqLabel (base virtLabel : Int) (plain : Except String Int) (dflt : ε) (ds : List Int) (evs : List ε)
+    (pos : Int) : Except String Int := do
+  let virt ← virtualRepeat dflt ds evs pos
+  if virt then pure virtLabel else labelLoop base plain evs pos ds.zipIdx.reverse
+
+theorem lbEventsToLabel_eq (oh : OneHot ε) (c : LookbackCfg) (evs : List ε) (pos : Int) :
+    lbEventsToLabel oh c evs pos =
+      seqLabel oh.numClasses (oh.numClasses + c.dists.length - 1) (ohEventsToLabel oh evs pos) oh.default
+        c.dists evs pos := rfl
+
+theorem keyEventsToLabel_eq (c : KeyCfg) (evs : List Int) (pos : Int) :
+    keyEventsToLabel c evs pos =
+      seqLabel (c.noteRange + 2) (c.noteRange + c.dists.length + 1) (keyPlainLabel c evs pos) Gen.MELODY_NO_EVENT
+        c.dists evs pos := rfl
+
+theorem getLast?_some_idx (ds : List Int) (dl : Int) (h : ds.getLast? = some dl) :
+    ∃ n, ds.length = n + 1 ∧ ds[n]? = some dl := by
+  rw [List.getLast?_eq_getElem?] at h
+  cases hds : ds with
+  | nil => subst hds; simp at h
+  | cons a t =>
+    subst hds
+    exact ⟨t.length, by simp, by simpa using h⟩
+
+theorem revIdx_dists_pos (ds : List Int) (hd : ∀ d ∈ ds, 1 ≤ d) : ∀ x ∈ ds.zipIdx.reverse, 1 ≤ x.1 := by
+  intro x hx
+  rw [mem_revIdx] at hx
+  exact hd _ (List.mem_of_getElem? hx)
+
+/-- precedence, index form (generic) -/
+theorem seqLabel_precedence (base virtLabel : Int) (plain : Except String Int) (dflt : ε) (ds : List Int)
+    (evs : List ε) (p : Nat) (hp : p < evs.length) (hd : ∀ d ∈ ds, 1 ≤ d)
+    (hvl : virtLabel = base + ds.length - 1) :
+    (∀ i, Matches dflt ds evs p i → (∀ j, i < j → ¬ Matches dflt ds evs p j) →
+        seqLabel base virtLabel plain dflt ds evs p = .ok (base + i)) ∧
+    ((∀ i, ¬ Matches dflt ds evs p i) → seqLabel base virtLabel plain dflt ds evs p = plain) := by
+  have hL := revIdx_dists_pos ds hd
+  constructor
+  · intro i hm hmax
+    unfold seqLabel
+    rw [virtualRepeat_eq dflt ds evs p hp]
+    obtain ⟨d, hdi, hcase⟩ := hm
+    cases hgl : ds.getLast? with
+    | none =>
+      simp only [bind, Except.bind]
+      have hr : rep evs p d = true := by
+        rcases hcase with h | ⟨h1, _, _⟩
+        · exact h
+        · rw [List.getLast?_eq_getElem?] at hgl
+          have : ds.length - 1 = i := by omega
+          rw [this, hdi] at hgl; cases hgl
+      simp
+      exact labelLoop_hit _ _ evs p hp _ hL d i ((mem_revIdx _ (d, i)).mpr hdi) hr
+        (fun x hx hrx => by
+          rw [mem_revIdx] at hx
+          have : ¬ i < x.2 := fun hlt => hmax x.2 hlt ⟨x.1, hx, .inl hrx⟩
+          omega) (revIdx_pairwise_gt _)
+    | some dl =>
+      obtain ⟨n, hn1, hn2⟩ := getLast?_some_idx _ _ hgl
+      simp only [bind, Except.bind]
+      by_cases hv : (p : Int) < dl ∧ evs[p] = dflt
+      · have hmn : Matches dflt ds evs p n :=
+          ⟨dl, hn2, .inr ⟨by omega, hv.1, by rw [List.getElem?_eq_getElem hp, hv.2]⟩⟩
+        have hin : ¬ i < n := fun hlt => hmax n hlt hmn
+        have hil : i < ds.length := by
+          rcases Nat.lt_or_ge i ds.length with h | h
+          · exact h
+          · rw [List.getElem?_eq_none h] at hdi; cases hdi
+        have : i = n := by omega
+        subst this
+        simp [hv, pure, Except.pure, hn1, hvl]
+        omega
+      · have hr : rep evs p d = true := by
+          rcases hcase with h | ⟨h1, h2, h3⟩
+          · exact h
+          · exfalso
+            have : i = n := by omega
+            subst this
+            rw [hn2] at hdi; injection hdi with hdi; subst hdi
+            rw [List.getElem?_eq_getElem hp] at h3; injection h3 with h3
+            exact hv ⟨h2, h3⟩
+        simp [hv]
+        exact labelLoop_hit _ _ evs p hp _ hL d i ((mem_revIdx _ (d, i)).mpr hdi) hr
+          (fun x hx hrx => by
+            rw [mem_revIdx] at hx
+            have : ¬ i < x.2 := fun hlt => hmax x.2 hlt ⟨x.1, hx, .inl hrx⟩
+            omega) (revIdx_pairwise_gt _)
+  · intro hno
+    unfold seqLabel
+    rw [virtualRepeat_eq dflt ds evs p hp]
+    have hmiss : labelLoop base plain evs p ds.zipIdx.reverse = plain := by
+      rw [labelLoop_miss _ _ evs p hp _ hL]
+      intro x hx
+      rw [mem_revIdx] at hx
+      cases hr : rep evs p x.1 with
+      | false => rfl
+      | true => exact absurd ⟨x.1, hx, .inl hr⟩ (hno x.2)
+    cases hgl : ds.getLast? with
+    | none => simp [bind, Except.bind, hmiss]
+    | some dl =>
+      obtain ⟨n, hn1, hn2⟩ := getLast?_some_idx _ _ hgl
+      have hv : ¬ ((p : Int) < dl ∧ evs[p] = dflt) := fun hv =>
+        hno n ⟨dl, hn2, .inr ⟨by omega, hv.1, by rw [List.getElem?_eq_getElem hp, hv.2]⟩⟩
+      simp [bind, Except.bind, hv, hmiss]
+
+/-- the label is in range and decodes (against the prefix) to the event, given that the plain label does -/
+theorem seqLabel_decode (base virtLabel : Int) (plain : Except String Int) (dflt : ε) (ds : List Int)
+    (evs : List ε) (p : Nat) (hp : p < evs.length) (hd : ∀ d ∈ ds, 1 ≤ d)
+    (hvl : virtLabel = base + ds.length - 1) (plainCite : Int → Except String ε)
+    (l0 : Int) (hpl : plain = .ok l0) (h0 : 0 ≤ l0) (h1 : l0 < base) (hcite : plainCite l0 = .ok evs[p]) :
+    ∃ l, seqLabel base virtLabel plain dflt ds evs p = .ok l ∧ 0 ≤ l ∧ l < base + ds.length ∧
+      citeLoop base dflt (plainCite l) l (evs.take p) ds.zipIdx.reverse = .ok evs[p] := by
+  have hL := revIdx_dists_pos ds hd
+  have hlen : (evs.take p).length = p := by rw [List.length_take]; omega
+  -- a real match at entry (d, i)
+  have real : ∀ (d : Int) (i : Nat), ds[i]? = some d → rep evs p d = true →
+      citeLoop base dflt (plainCite (base + i)) (base + i) (evs.take p) ds.zipIdx.reverse = .ok evs[p] := by
+    intro d i hdi hr
+    rw [citeLoop_hit base dflt _ (base + i) (evs.take p) _ d i ((mem_revIdx _ (d, i)).mpr hdi) rfl
+      (revIdx_pairwise_gt _)]
+    unfold rep at hr
+    simp only [decide_eq_true_eq] at hr
+    obtain ⟨hle, heq⟩ := hr
+    have hd1 := hd d (List.mem_of_getElem? hdi)
+    have hq : ((p : Int) - d).toNat < (evs.take p).length := by omega
+    rw [hlen, if_neg (by omega), pyIdx_neg (evs.take p) d ((p : Int) - d).toNat hd1 (by omega) hq]
+    rw [List.getElem_take]
+    have hq' : ((p : Int) - d).toNat < evs.length := by omega
+    rw [List.getElem?_eq_getElem hp, List.getElem?_eq_getElem hq'] at heq
+    injection heq with heq
+    rw [heq]
+  have hil : ∀ (d : Int) (i : Nat), ds[i]? = some d → i < ds.length := by
+    intro d i hdi
+    rcases Nat.lt_or_ge i ds.length with h | h
+    · exact h
+    · rw [List.getElem?_eq_none h] at hdi; cases hdi
+  unfold seqLabel
+  rw [virtualRepeat_eq dflt ds evs p hp]
+  have loopcase : ∃ l, labelLoop base plain evs p ds.zipIdx.reverse = .ok l ∧ 0 ≤ l ∧ l < base + ds.length ∧
+      citeLoop base dflt (plainCite l) l (evs.take p) ds.zipIdx.reverse = .ok evs[p] := by
+    rcases labelLoop_cases base plain evs p hp _ hL with h | ⟨x, hx1, hx2, hx3⟩
+    · refine ⟨l0, by rw [h, hpl], h0, by omega, ?_⟩
+      rw [citeLoop_miss, hcite]
+      intro x _; omega
+    · rw [mem_revIdx] at hx1
+      have := hil _ _ hx1
+      exact ⟨base + x.2, hx3, by omega, by omega, real x.1 x.2 hx1 hx2⟩
+  cases hgl : ds.getLast? with
+  | none => simpa [bind, Except.bind] using loopcase
+  | some dl =>
+    obtain ⟨n, hn1, hn2⟩ := getLast?_some_idx _ _ hgl
+    by_cases hv : (p : Int) < dl ∧ evs[p] = dflt
+    · refine ⟨base + n, by simp [bind, Except.bind, hv, pure, Except.pure, hvl, hn1]; omega, by omega, by omega, ?_⟩
+      rw [citeLoop_hit base dflt _ (base + n) (evs.take p) _ dl n ((mem_revIdx _ (dl, n)).mpr hn2) rfl
+        (revIdx_pairwise_gt _), hlen, if_pos hv.1, hv.2]
+    · simpa [bind, Except.bind, hv] using loopcase
+end
+
+/-! ### mapE, one-hot vectors -/
+
+/-! ### `mapE` / `encode` -/
+theorem mapE_ok {α β : Type} (f : α → Except String β) (l : List α) (bs : List β) (h : mapE f l = .ok bs) :
+    bs.length = l.length ∧ ∀ i (hi : i < l.length) (hb : i < bs.length), f l[i] = .ok bs[i] := by
+  induction l generalizing bs with
+  | nil =>
+    unfold mapE at h; injection h with h; subst h
+    exact ⟨rfl, fun i hi => absurd hi (Nat.not_lt_zero _)⟩
+  | cons a as ih =>
+    unfold mapE at h
+    cases hfa : f a with
+    | error e => rw [hfa] at h; cases h
+    | ok b =>
+      rw [hfa] at h
+      cases hr : mapE f as with
+      | error e => rw [hr] at h; cases h
+      | ok bs' =>
+        rw [hr] at h
+        injection h with h; subst h
+        obtain ⟨h1, h2⟩ := ih bs' hr
+        refine ⟨by simp [h1], ?_⟩
+        intro i hi hb
+        cases i with
+        | zero => simpa using hfa
+        | succ k => simpa using h2 k (by simpa using hi) (by simpa using hb)
+
+theorem mapE_total {α β : Type} (f : α → Except String β) (l : List α) (h : ∀ a ∈ l, ∃ b, f a = .ok b) :
+    ∃ bs, mapE f l = .ok bs := by
+  induction l with
+  | nil => exact ⟨[], rfl⟩
+  | cons a as ih =>
+    obtain ⟨b, hb⟩ := h a (by simp)
+    obtain ⟨bs, hbs⟩ := ih (fun x hx => h x (by simp [hx]))
+    exact ⟨b :: bs, by unfold mapE; rw [hb, hbs]⟩
+
+/-! ### one-hot vectors -/
+theorem oneHotVec_length (n i : Nat) : (oneHotVec n i).length = n := by simp [oneHotVec]
+
+/-- exactly one `1`: entry `k` is `1` iff `k = i`, every other entry is `0` -/
+theorem oneHotVec_get (n i k : Nat) (hi : i < n) (hk : k < n) :
+    (oneHotVec n i)[k]? = some (if k = i then 1 else 0) := by
+  unfold oneHotVec
+  rw [List.getElem?_set]
+  by_cases h : i = k
+  · subst h; simp [hk]
+  · have : ¬ k = i := fun e => h e.symm
+    simp [h, this, hk]
+
+theorem oneHotVec_count (n i : Nat) (hi : i < n) : (oneHotVec n i).count 1 = 1 ∧ (oneHotVec n i).count 0 = n - 1 := by
+  unfold oneHotVec
+  induction n generalizing i with
+  | zero => omega
+  | succ m ih =>
+    cases i with
+    | zero => simp [List.replicate_succ, List.count_replicate]
+    | succ j =>
+      have := ih j (by omega)
+      simp [List.replicate_succ, this]
+      omega
+
+
+/-! ### layout of the lookback input vector -/
+
+theorem pySet_at (done rest : List Int) (off : Int) (hoff : off = done.length) (k : Nat) (v : Int)
+    (hk : k < rest.length) :
+    pySet (done ++ rest) (off + k) v = .ok (done ++ rest.set k v) := by
+  have e : off + (k : Int) = ((done.length + k : Nat) : Int) := by omega
+  rw [e, pySet_nat _ _ _ (by simp; omega), List.set_append_right _ _ (by omega)]
+  simp
+
+theorem zeros_split (m n : Nat) (hn : n ≤ m) :
+    List.replicate m (0 : Int) = List.replicate n 0 ++ List.replicate (m - n) 0 := by
+  rw [List.replicate_append_replicate]; congr 1; omega
+
+/-- writing a one-hot index into the first `n` untouched zeros after `done` -/
+theorem pySet_block (done : List Int) (off : Int) (hoff : off = done.length) (m n i : Nat) (hi : i < n) (hn : n ≤ m) :
+    pySet (done ++ List.replicate m 0) (off + i) 1 =
+      .ok (done ++ oneHotVec n i ++ List.replicate (m - n) 0) := by
+  rw [pySet_at done _ off hoff i 1 (by simp; omega), zeros_split m n hn,
+    List.set_append_left _ _ (by simp; omega)]
+  simp [oneHotVec, List.append_assoc]
+
+/-- writing one value into the first untouched zero after `done` -/
+theorem pySet_cell (done : List Int) (off : Int) (hoff : off = done.length) (m : Nat) (hm : 0 < m) (v : Int) :
+    pySet (done ++ List.replicate m 0) off v = .ok (done ++ [v] ++ List.replicate (m - 1) 0) := by
+  have := pySet_at done (List.replicate m 0) off hoff 0 v (by simp; omega)
+  simp only [Int.natCast_zero, Int.add_zero] at this
+  rw [this]
+  obtain ⟨k, rfl⟩ : ∃ k, m = k + 1 := ⟨m - 1, by omega⟩
+  simp [List.replicate_succ]
+
+theorem keep_cell (done : List Int) (m : Nat) (hm : 0 < m) :
+    done ++ List.replicate m (0 : Int) = done ++ [0] ++ List.replicate (m - 1) 0 := by
+  obtain ⟨k, rfl⟩ : ∃ k, m = k + 1 := ⟨m - 1, by omega⟩
+  simp [List.replicate_succ]
+
+section
+variable {ε : Type} [DecidableEq ε]
+
+/-- the event the lookback block of distance `d` encodes at position `p`: the event one step after the
+lookback position, or the default event when that lies before the start -/
+def NextEv (dflt : ε) (evs : List ε) (p : Nat) (d : Int) (e : ε) : Prop :=
+  ((p : Int) - d + 1 < 0 ∧ e = dflt) ∨ (0 ≤ (p : Int) - d + 1 ∧ evs[((p : Int) - d + 1).toNat]? = some e)
+
+omit [DecidableEq ε] in
+theorem lbNextLoop_spec (oh : OneHot ε) (evs : List ε) (p : Nat) (n : Nat) (hn : oh.numClasses = n)
+    (f : Int → Nat) (ds : List Int)
+    (hf : ∀ d ∈ ds, f d < n ∧ ∃ e, NextEv oh.default evs p d e ∧ oh.encode e = .ok (f d))
+    (done : List Int) (m : Nat) (off : Int) (hoff : off = done.length) (hm : ds.length * n ≤ m) :
+    lbNextLoop oh evs p ds (done ++ List.replicate m 0, off) =
+      .ok (done ++ (ds.map (fun d => oneHotVec n (f d))).flatten ++ List.replicate (m - ds.length * n) 0,
+           off + (ds.length * n : Nat)) := by
+  induction ds generalizing done m off with
+  | nil => simp [lbNextLoop]
+  | cons d rest ih =>
+    obtain ⟨hfd, e, hne, henc⟩ := hf d (by simp)
+    have hlen : (d :: rest).length * n = rest.length * n + n := by simp [Nat.succ_mul]
+    have hev : nextEvent oh evs p d = .ok e := by
+      unfold nextEvent
+      rcases hne with ⟨h1, h2⟩ | ⟨h1, h2⟩
+      · simp [h1, h2]
+      · have hnl : ¬ ((p : Int) - d + 1 < 0) := by omega
+        obtain ⟨hq, hq2⟩ := List.getElem?_eq_some_iff.mp h2
+        rw [if_neg hnl, pyIdx_of_norm evs _ ((p : Int) - d + 1).toNat (by unfold normIdx; omega) hq, hq2]
+    unfold lbNextLoop
+    simp only [hev, bind, Except.bind, henc]
+    rw [pySet_block done off hoff m n (f d) hfd (by omega)]
+    simp only []
+    have := ih (fun d' hd' => hf d' (by simp [hd'])) (done ++ oneHotVec n (f d)) (m - n) (off + oh.numClasses)
+      (by simp [oneHotVec, hn]; omega) (by omega)
+    rw [this]
+    simp only [List.map_cons, List.flatten_cons, List.append_assoc, hlen]
+    have e1 : m - n - rest.length * n = m - (rest.length * n + n) := by omega
+    have e2 : off + oh.numClasses + ((rest.length * n : Nat) : Int) = off + ((rest.length * n + n : Nat) : Int) := by
+      rw [hn]; push_cast; omega
+    rw [e1, e2]
+
+theorem counterLoop_spec (nn : Int) (is : List Nat) (done : List Int) (m : Nat) (off : Int)
+    (hoff : off = done.length) (hm : is.length ≤ m) :
+    counterLoop nn is (done ++ List.replicate m 0, off) =
+      .ok (done ++ is.map (counterBit nn) ++ List.replicate (m - is.length) 0, off + (is.length : Nat)) := by
+  induction is generalizing done m off with
+  | nil => simp [counterLoop]
+  | cons i rest ih =>
+    unfold counterLoop
+    simp only [List.length_cons] at hm
+    rw [pySet_cell done off hoff m (by omega)]
+    simp only [bind, Except.bind]
+    rw [ih (done ++ [counterBit nn i]) (m - 1) (off + 1) (by simp; omega) (by omega)]
+    simp only [List.map_cons, List.append_assoc, List.singleton_append, List.length_cons]
+    have e1 : m - 1 - rest.length = m - (rest.length + 1) := by omega
+    have e2 : off + 1 + ((rest.length : Nat) : Int) = off + ((rest.length + 1 : Nat) : Int) := by omega
+    rw [e1, e2]
+
+/-- the repeat flag of distance `d` -/
+def repFlag (evs : List ε) (p : Nat) (d : Int) : Int := if rep evs p d then 1 else 0
+
+theorem repeatLoop_spec (evs : List ε) (p : Nat) (hp : p < evs.length) (ds : List Int) (hd : ∀ d ∈ ds, 1 ≤ d)
+    (done : List Int) (m : Nat) (off : Int) (hoff : off = done.length) (hm : ds.length ≤ m) :
+    repeatLoop evs p ds (done ++ List.replicate m 0, off) =
+      .ok (done ++ ds.map (repFlag evs p) ++ List.replicate (m - ds.length) 0, off + (ds.length : Nat)) := by
+  induction ds generalizing done m off with
+  | nil => simp [repeatLoop]
+  | cons d rest ih =>
+    unfold repeatLoop
+    simp only [List.length_cons] at hm
+    rw [repeats_eq evs p hp d (hd d (by simp))]
+    have hstep : setIf (rep evs p d) (done ++ List.replicate m 0) off 1
+        = .ok (done ++ [repFlag evs p d] ++ List.replicate (m - 1) 0) := by
+      unfold repFlag setIf
+      by_cases h : rep evs p d = true
+      · simp only [h, if_true]; exact pySet_cell done off hoff m (by omega) 1
+      · simp only [h]; rw [keep_cell done m (by omega)]; rfl
+    simp only [bind, Except.bind, hstep]
+    rw [ih (fun d' hd' => hd d' (by simp [hd'])) (done ++ [repFlag evs p d]) (m - 1) (off + 1) (by simp; omega) (by omega)]
+    simp only [List.map_cons, List.append_assoc, List.singleton_append, List.length_cons]
+    have e1 : m - 1 - rest.length = m - (rest.length + 1) := by omega
+    have e2 : off + 1 + ((rest.length : Nat) : Int) = off + ((rest.length + 1 : Nat) : Int) := by omega
+    rw [e1, e2]
+
+omit [DecidableEq ε] in
+theorem flatten_oneHot_length (n : Nat) (f : Int → Nat) (ds : List Int) :
+    ((ds.map (fun d => oneHotVec n (f d))).flatten).length = ds.length * n := by
+  induction ds with
+  | nil => simp
+  | cons d rest ih =>
+    rw [List.map_cons, List.flatten_cons, List.length_append, ih, oneHotVec_length, List.length_cons, Nat.succ_mul]; omega
+
+/-- the exact layout of the lookback input vector -/
+theorem lbEventsToInput_layout (oh : OneHot ε) (c : LookbackCfg) (evs : List ε) (p : Nat) (hp : p < evs.length)
+    (hd : ∀ d ∈ c.dists, 1 ≤ d) (hb : 0 ≤ c.bits) (n i0 : Nat) (hn : oh.numClasses = n)
+    (h0 : oh.encode evs[p] = .ok i0) (hi0 : i0 < n) (f : Int → Nat)
+    (hf : ∀ d ∈ c.dists, f d < n ∧ ∃ e, NextEv oh.default evs p d e ∧ oh.encode e = .ok (f d)) :
+    lbEventsToInput oh c evs p = .ok
+      (oneHotVec n i0 ++ (c.dists.map (fun d => oneHotVec n (f d))).flatten ++
+        (List.range c.bits.toNat).map (counterBit ((p : Int) + 1)) ++ c.dists.map (repFlag evs p)) := by
+  unfold lbEventsToInput
+  have hsz : lbInputSize oh c = ((n + c.dists.length * n + c.bits.toNat + c.dists.length : Nat) : Int) := by
+    unfold lbInputSize; rw [hn]; push_cast; omega
+  simp only [pyIdx_nat evs p hp, bind, Except.bind, h0]
+  rw [hsz]
+  unfold zeros
+  rw [Int.toNat_natCast]
+  have s1 := pySet_block [] 0 rfl (n + c.dists.length * n + c.bits.toNat + c.dists.length) n i0 hi0 (by omega)
+  simp only [List.nil_append, Int.zero_add] at s1
+  rw [s1]
+  simp only []
+  rw [lbNextLoop_spec oh evs p n hn f c.dists hf (oneHotVec n i0) _ oh.numClasses (by simp [oneHotVec, hn]) (by omega)]
+  simp only []
+  rw [counterLoop_spec _ _ _ _ _ (by rw [List.length_append, flatten_oneHot_length, oneHotVec_length, hn]; push_cast; omega) (by simp; omega)]
+  simp only []
+  rw [repeatLoop_spec evs p hp c.dists hd _ _ _ (by rw [List.length_append, List.length_append, flatten_oneHot_length, oneHotVec_length, hn]; simp) (by simp; omega)]
+  simp only [List.length_range]
+  have e1 : n + c.dists.length * n + c.bits.toNat + c.dists.length - n - c.dists.length * n - c.bits.toNat - c.dists.length = 0 := by omega
+  have e2 : oh.numClasses + ((c.dists.length * n : Nat) : Int) + ((c.bits.toNat : Nat) : Int) + ((c.dists.length : Nat) : Int)
+      = ((n + c.dists.length * n + c.bits.toNat + c.dists.length : Nat) : Int) := by rw [hn]; push_cast; omega
+  rw [e1, e2]
+  simp [pure, Except.pure]
+end
+
+/-! ### every successful input computation has exactly input_size entries -/
+section
+variable {ε : Type} [DecidableEq ε]
+
+theorem setIf_length {α : Type} {b : Bool} {l l' : List α} {i : Int} {v : α} (h : setIf b l i v = .ok l') :
+    l'.length = l.length := by
+  unfold setIf at h
+  split at h
+  · exact pySet_length h
+  · injection h with h; rw [h]
+
+omit [DecidableEq ε] in
+theorem lbNextLoop_length (oh : OneHot ε) (evs : List ε) (pos : Int) (ds : List Int) (st st' : List Int × Int)
+    (h : lbNextLoop oh evs pos ds st = .ok st') : st'.1.length = st.1.length := by
+  induction ds generalizing st with
+  | nil => unfold lbNextLoop at h; injection h with h; rw [h]
+  | cons d rest ih =>
+    obtain ⟨input, offset⟩ := st
+    unfold lbNextLoop at h
+    simp only [bind, Except.bind] at h
+    split at h
+    · cases h
+    · split at h
+      · cases h
+      · split at h
+        · cases h
+        · rename_i _ _ _ _ inp hset
+          rw [ih _ h]; exact pySet_length hset
+
+theorem counterLoop_length (nn : Int) (is : List Nat) (st st' : List Int × Int)
+    (h : counterLoop nn is st = .ok st') : st'.1.length = st.1.length := by
+  induction is generalizing st with
+  | nil => unfold counterLoop at h; injection h with h; rw [h]
+  | cons d rest ih =>
+    obtain ⟨input, offset⟩ := st
+    unfold counterLoop at h
+    simp only [bind, Except.bind] at h
+    split at h
+    · cases h
+    · rename_i inp hset
+      rw [ih _ h]; exact pySet_length hset
+
+theorem repeatLoop_length (evs : List ε) (pos : Int) (ds : List Int) (st st' : List Int × Int)
+    (h : repeatLoop evs pos ds st = .ok st') : st'.1.length = st.1.length := by
+  induction ds generalizing st with
+  | nil => unfold repeatLoop at h; injection h with h; rw [h]
+  | cons d rest ih =>
+    obtain ⟨input, offset⟩ := st
+    unfold repeatLoop at h
+    simp only [bind, Except.bind] at h
+    split at h
+    · cases h
+    · split at h
+      · cases h
+      · rename_i _ _ inp hset
+        rw [ih _ h]; exact setIf_length hset
+
+theorem lbEventsToInput_length (oh : OneHot ε) (c : LookbackCfg) (evs : List ε) (pos : Int) (v : List Int)
+    (h : lbEventsToInput oh c evs pos = .ok v) : v.length = (lbInputSize oh c).toNat := by
+  unfold lbEventsToInput at h
+  simp only [bind, Except.bind] at h
+  split at h
+  · cases h
+  · split at h
+    · cases h
+    · split at h
+      · cases h
+      · split at h
+        · cases h
+        · split at h
+          · cases h
+          · split at h
+            · cases h
+            · split at h
+              · rename_i _ _ _ _ _ _ _ inp hset _ st1 h1 _ st2 h2 _ st3 h3 _
+                simp only [pure, Except.pure] at h
+                injection h with h
+                rw [← h, repeatLoop_length _ _ _ _ _ h3, counterLoop_length _ _ _ _ h2,
+                  lbNextLoop_length _ _ _ _ _ _ h1, pySet_length hset]
+                simp [zeros]
+              · cases h
+end
+
+/-! ### generation loop -/
+
+/-- the generation loop never fails on labels satisfying `Lab` when every step decodes to a `Valid` event;
+every generated event is the decoding of its label against everything generated before it -/
+theorem genLoop_total {ε κ : Type} (cite : κ → List ε → Except String ε) (Valid : ε → Prop) (Lab : κ → Prop)
+    (hstep : ∀ l evs, Lab l → (∀ e ∈ evs, Valid e) → ∃ e, cite l evs = .ok e ∧ Valid e)
+    (labels : List κ) (hl : ∀ l ∈ labels, Lab l) (init : List ε) (hi : ∀ e ∈ init, Valid e) :
+    ∃ out, genLoop cite labels init = .ok out ∧ out.length = init.length + labels.length ∧
+      (∀ e ∈ out, Valid e) ∧ out.take init.length = init ∧
+      ∀ k (hk : k < labels.length) (ho : init.length + k < out.length),
+        cite labels[k] (out.take (init.length + k)) = .ok out[init.length + k] := by
+  induction labels generalizing init with
+  | nil => exact ⟨init, rfl, by simp, hi, by simp, fun k hk => absurd hk (Nat.not_lt_zero _)⟩
+  | cons l ls ih =>
+    obtain ⟨e, he, hve⟩ := hstep l init (hl l (by simp)) hi
+    obtain ⟨out, h1, h2, h3, h4, h5⟩ := ih (fun x hx => hl x (by simp [hx])) (init ++ [e])
+      (fun x hx => by
+        rcases List.mem_append.mp hx with h | h
+        · exact hi x h
+        · simp at h; subst h; exact hve)
+    have hlen : (init ++ [e]).length = init.length + 1 := by simp
+    have htake : out.take init.length = init := by
+      have := congrArg (List.take init.length) h4
+      rw [List.take_take, hlen] at this
+      simpa [Nat.min_eq_left (Nat.le_succ _)] using this
+    refine ⟨out, by unfold genLoop; rw [he]; exact h1, by rw [h2, hlen]; simp; omega, h3, htake, ?_⟩
+    intro k hk ho
+    cases k with
+    | zero =>
+      simp only [Nat.add_zero, List.getElem_cons_zero]
+      rw [htake, he]
+      congr 1
+      have h6 : (out.take (init.length + 1))[init.length]? = (init ++ [e])[init.length]? := by
+        rw [← hlen, h4]
+      rw [List.getElem?_take] at h6
+      simp at h6
+      rw [List.getElem?_eq_getElem (by omega)] at h6
+      injection h6 with h6
+      exact h6.symm
+    | succ k =>
+      have := h5 k (by simpa using hk) (by rw [hlen]; omega)
+      simp only [hlen] at this
+      simp only [List.getElem_cons_succ]
+      have e1 : init.length + (k + 1) = init.length + 1 + k := by omega
+      simp only [e1]
+      exact this
+
+/-- decoding the labels an encoder produced reconstructs the event sequence: if at every position the label
+decodes (against the prefix) to the event, then running the generation loop on the labels of positions
+`k, k+1, …` from the first `k` events yields the whole sequence -/
+theorem genLoop_roundtrip {ε κ : Type} (cite : κ → List ε → Except String ε) (lab : Nat → Except String κ)
+    (evs : List ε)
+    (h : ∀ p (hp : p < evs.length), ∃ l, lab p = .ok l ∧ cite l (evs.take p) = .ok evs[p])
+    (n k : Nat) (hk : k + n = evs.length) :
+    ∃ labels, mapE lab (List.range' k n) = .ok labels ∧ genLoop cite labels (evs.take k) = .ok evs := by
+  induction n generalizing k with
+  | zero =>
+    refine ⟨[], rfl, ?_⟩
+    have : k = evs.length := by omega
+    subst this
+    simp [genLoop]
+  | succ n ih =>
+    obtain ⟨l, hl1, hl2⟩ := h k (by omega)
+    obtain ⟨ls, hls1, hls2⟩ := ih (k + 1) (by omega)
+    refine ⟨l :: ls, ?_, ?_⟩
+    · rw [List.range'_succ]; unfold mapE; rw [hl1, hls1]
+    · unfold genLoop
+      rw [hl2]
+      simp only []
+      have : evs.take k ++ [evs[k]'(by omega)] = evs.take (k + 1) := by
+        rw [List.take_succ_eq_append_getElem]
+      rw [this]; exact hls2
+
+/-! ### key-melody labels -/
+open Gen
+
+/-- one step of the generation loop for the lookback-shaped decoders -/
+theorem citeLoop_step {ε : Type} (base : Int) (dflt : ε) (plainCite : Int → Except String ε) (Valid : ε → Prop)
+    (ds : List Int) (hd : ∀ d ∈ ds, 1 ≤ d)
+    (hplain : ∀ l, 0 ≤ l → l < base → ∃ e, plainCite l = .ok e ∧ Valid e) (hdef : Valid dflt)
+    (l : Int) (hl0 : 0 ≤ l) (hl1 : l < base + ds.length) (evs : List ε) (hev : ∀ e ∈ evs, Valid e) :
+    ∃ e, citeLoop base dflt (plainCite l) l evs ds.zipIdx.reverse = .ok e ∧ Valid e := by
+  by_cases hlt : l < base
+  · rw [citeLoop_miss _ _ _ _ _ _ (fun x _ => by omega)]
+    exact hplain l hl0 hlt
+  · have hidx : (l - base).toNat < ds.length := by omega
+    rw [citeLoop_hit _ _ _ l evs _ (ds[(l - base).toNat]) (l - base).toNat
+      ((mem_revIdx _ (_, _)).mpr (List.getElem?_eq_getElem hidx)) (by omega) (revIdx_pairwise_gt _)]
+    have hd1 := hd _ (List.getElem_mem hidx)
+    generalize ds[(l - base).toNat] = d at hd1
+    by_cases hlen : (evs.length : Int) < d
+    · rw [if_pos hlen]; exact ⟨_, rfl, hdef⟩
+    · have hq : (evs.length - d.toNat) < evs.length := by omega
+      rw [if_neg hlen, pyIdx_neg evs d (evs.length - d.toNat) hd1 (by omega) hq]
+      exact ⟨_, rfl, hev _ (List.getElem_mem hq)⟩
+
+/-- legal key-melody configurations (the constructor does not validate; this is the documented domain) -/
+def KeyCfgOk (c : KeyCfg) : Prop := 0 ≤ c.minNote ∧ c.minNote < c.maxNote ∧ ∀ d ∈ c.dists, 1 ≤ d
+
+/-- melody events of the configuration: no-event, note-off, or a pitch in `[min_note, max_note)` -/
+def KeyEvent (c : KeyCfg) (e : Int) : Prop :=
+  e = MELODY_NO_EVENT ∨ e = MELODY_NOTE_OFF ∨ (c.minNote ≤ e ∧ e < c.maxNote)
+
+theorem keyPlain_spec (c : KeyCfg) (hc : KeyCfgOk c) (evs : List Int) (p : Nat) (hp : p < evs.length)
+    (hv : KeyEvent c evs[p]) :
+    ∃ l0, keyPlainLabel c evs p = .ok l0 ∧ 0 ≤ l0 ∧ l0 < c.noteRange + 2 ∧ keyPlainEvent c l0 = evs[p] := by
+  obtain ⟨h0, h1, _⟩ := hc
+  unfold keyPlainLabel keyPlainEvent
+  simp only [pyIdx_nat evs p hp, bind, Except.bind, pure, Except.pure]
+  unfold KeyEvent MELODY_NO_EVENT MELODY_NOTE_OFF at hv
+  unfold KeyCfg.noteRange MELODY_NO_EVENT MELODY_NOTE_OFF
+  generalize evs[p] = e at hv
+  rcases hv with h | h | ⟨h2, h3⟩
+  · subst h; exact ⟨c.maxNote - c.minNote, by simp, by omega, by omega, by simp; omega⟩
+  · subst h; exact ⟨c.maxNote - c.minNote + 1, by simp, by omega, by omega, by simp⟩
+  · have e1 : ¬ e = -1 := by omega
+    have e2 : ¬ e = -2 := by omega
+    refine ⟨e - c.minNote, by simp [e1, e2], by omega, by omega, ?_⟩
+    have e3 : ¬ (e - c.minNote = c.maxNote - c.minNote + 1) := by omega
+    have e4 : ¬ (e - c.minNote = c.maxNote - c.minNote) := by omega
+    simp [e3, e4]; omega
+
+/-! ### key-melody input size -/
+open Gen
+
+theorem bind_ok {α β : Type} {x : Except String α} {f : α → Except String β} {b : β}
+    (h : (x >>= f) = .ok b) : ∃ a, x = .ok a ∧ f a = .ok b := by
+  cases x with
+  | error e => cases h
+  | ok a => exact ⟨a, rfl, h⟩
+
+theorem histLoop_length (mx : Int) (vs : List Int) (st st' : List Int × Int)
+    (h : histLoop mx vs st = .ok st') : st'.1.length = st.1.length := by
+  induction vs generalizing st with
+  | nil => unfold histLoop at h; injection h with h; rw [h]
+  | cons d rest ih =>
+    obtain ⟨input, offset⟩ := st
+    unfold histLoop at h
+    obtain ⟨inp, hset, h⟩ := bind_ok h
+    rw [ih _ h]; exact setIf_length hset
+
+theorem keyWriteNote_length (c : KeyCfg) (cur : Option Int) (input out : List Int) (off : Int)
+    (h : keyWriteNote c cur input off = .ok out) : out.length = input.length := by
+  unfold keyWriteNote at h
+  split at h
+  · split at h
+    · obtain ⟨i1, h1, h⟩ := bind_ok h
+      rw [pySet_length h, pySet_length h1]
+    · exact pySet_length h
+  · exact pySet_length h
+
+theorem keyWriteAsc_length (asc : Option Bool) (input out : List Int) (off : Int)
+    (h : keyWriteAsc asc input off = .ok out) : out.length = input.length := by
+  unfold keyWriteAsc at h
+  split at h
+  · exact pySet_length h
+  · injection h with h; rw [h]
+
+theorem keyEventsToInput_length (c : KeyCfg) (evs : List Int) (pos : Int) (v : List Int)
+    (h : keyEventsToInput c evs pos = .ok v) : v.length = (keyInputSize c).toNat := by
+  unfold keyEventsToInput at h
+  obtain ⟨sub, _, h⟩ := bind_ok h
+  obtain ⟨i1, h1, h⟩ := bind_ok h
+  obtain ⟨i2, h2, h⟩ := bind_ok h
+  obtain ⟨i3, h3, h⟩ := bind_ok h
+  obtain ⟨s4, h4, h⟩ := bind_ok h
+  obtain ⟨s5, h5, h⟩ := bind_ok h
+  obtain ⟨i6, h6, h⟩ := bind_ok h
+  obtain ⟨s7, h7, h⟩ := bind_ok h
+  obtain ⟨l3, _, h⟩ := bind_ok h
+  obtain ⟨s8, h8, h⟩ := bind_ok h
+  split at h
+  · simp only [pure, Except.pure] at h
+    injection h with h
+    rw [← h, histLoop_length _ _ _ _ h8, histLoop_length _ _ _ _ h7, setIf_length h6,
+      counterLoop_length _ _ _ _ h5, repeatLoop_length _ _ _ _ _ h4, keyWriteAsc_length _ _ _ _ h3,
+      setIf_length h2, keyWriteNote_length _ _ _ _ _ h1]
+    simp [zeros]
+  · cases h
+
+/-! ### note-performance: optimal_num_segments -/
+open Gen
+
+/-! optimal_num_segments returns a divisor in `[1, steps)` -/
+theorem foldl_min_mem (steps : Nat) (cs : List Nat) (c : Nat) :
+    cs.foldl (fun best i => if i + steps / i < best + steps / best then i else best) c ∈ c :: cs := by
+  induction cs generalizing c with
+  | nil => simp
+  | cons a as ih =>
+    simp only [List.foldl_cons]
+    have := ih (if a + steps / a < c + steps / c then a else c)
+    rcases List.mem_cons.mp this with h | h
+    · rw [h]; split <;> simp
+    · simp [h]
+
+theorem optimalNumSegments_divides (steps s : Nat) (h : optimalNumSegments steps = .ok s) :
+    1 ≤ s ∧ s < steps ∧ steps % s = 0 ∧ s * (steps / s) = steps := by
+  unfold optimalNumSegments at h
+  split at h
+  · cases h
+  · rename_i c cs hf
+    injection h with h
+    have hm := foldl_min_mem steps cs c
+    rw [h, ← hf] at hm
+    simp only [List.mem_filter, List.mem_range'_1, decide_eq_true_eq] at hm
+    obtain ⟨⟨h1, h2⟩, h3⟩ := hm
+    refine ⟨h1, by omega, h3, ?_⟩
+    exact Nat.mul_div_cancel' (Nat.dvd_of_mod_eq_zero h3)
+
+/-! ### note-performance: constructor and segment arithmetic -/
+open Gen
+
+theorem divmod_spec (x sp ss : Int) (hsp : 1 ≤ sp) (h0 : 0 ≤ x) (h1 : x < ss * sp) :
+    0 ≤ x.fdiv sp ∧ x.fdiv sp < ss ∧ 0 ≤ x.fmod sp ∧ x.fmod sp < sp ∧ x.fdiv sp * sp + x.fmod sp = x := by
+  rw [Int.fdiv_eq_ediv_of_nonneg _ (by omega), Int.fmod_eq_emod_of_nonneg _ (by omega)]
+  exact ⟨Int.ediv_nonneg h0 (by omega), (Int.ediv_lt_iff_lt_mul (by omega)).mpr h1,
+    Int.emod_nonneg _ (by omega), Int.emod_lt_of_pos _ (by omega), Int.ediv_mul_add_emod x sp⟩
+
+theorem divmod_unique (a b sp : Int) (h0 : 0 ≤ b) (h1 : b < sp) :
+    (a * sp + b).fdiv sp = a ∧ (a * sp + b).fmod sp = b := by
+  rw [Int.fdiv_eq_ediv_of_nonneg _ (by omega), Int.fmod_eq_emod_of_nonneg _ (by omega)]
+  rw [Int.add_comm, Int.add_mul_ediv_right _ _ (by omega), Int.add_mul_emod_self_right,
+    Int.ediv_eq_zero_of_lt h0 h1, Int.emod_eq_of_lt h0 h1]
+  omega
+
+/-- componentwise `0 ≤ label[k] < num_classes[k]` -/
+def LabelInRange : List Int → List Int → Prop
+  | [], [] => True
+  | l :: ls, n :: ns => 0 ≤ l ∧ l < n ∧ LabelInRange ls ns
+  | _, _ => False
+
+/-- legal configurations of the note-performance encoder (beyond the constructor's own assertions) -/
+def NPCfgOk (c : NPCfg) : Prop :=
+  1 ≤ c.bins ∧ c.bins ≤ MAX_NUM_VELOCITY_BINS ∧ MIN_MIDI_PITCH ≤ c.minPitch ∧ c.minPitch ≤ c.maxPitch ∧
+    c.maxPitch ≤ MAX_MIDI_PITCH
+
+/-- valid note events of a configuration -/
+def NPValid (c : NPCfg) (ev : NPEvent) : Prop :=
+  0 ≤ ev.shift ∧ ev.shift ≤ c.maxShift ∧ c.minPitch ≤ ev.pitch ∧ ev.pitch ≤ c.maxPitch ∧
+    1 ≤ ev.vel ∧ ev.vel ≤ c.bins ∧ 1 ≤ ev.dur ∧ ev.dur ≤ c.maxDur
+
+/-- what a successful constructor call establishes: segments × per-segment = steps -/
+theorem npInit_spec (c : NPCfg) (E : NPEnc) (h : npInit c = .ok E) :
+    E.minPitch = c.minPitch ∧ 1 < E.shiftSeg ∧ 1 ≤ E.shiftPer ∧ E.shiftSeg * E.shiftPer = (c.maxShift : Int) + 1 ∧
+    1 < E.durSeg ∧ 1 ≤ E.durPer ∧ E.durSeg * E.durPer = (c.maxDur : Int) ∧
+    E.numClasses = [E.shiftSeg, E.shiftPer, c.maxPitch - c.minPitch + 1, c.bins, E.durSeg, E.durPer] := by
+  unfold npInit at h
+  split at h
+  · cases h
+  · rename_i ss hss
+    split at h
+    · cases h
+    · rename_i hs1
+      split at h
+      · cases h
+      · rename_i ds hds
+        split at h
+        · cases h
+        · rename_i hd1
+          injection h with h
+          subst h
+          obtain ⟨a1, a2, a3, a4⟩ := optimalNumSegments_divides _ _ hss
+          obtain ⟨b1, b2, b3, b4⟩ := optimalNumSegments_divides _ _ hds
+          have hs2 : 1 < ss := by simpa using hs1
+          have hd2 : 1 < ds := by simpa using hd1
+          have p1 : 1 ≤ (c.maxShift + 1) / ss := by
+            rcases Nat.eq_zero_or_pos ((c.maxShift + 1) / ss) with h0 | h0
+            · rw [h0] at a4; omega
+            · exact h0
+          have p2 : 1 ≤ c.maxDur / ds := by
+            rcases Nat.eq_zero_or_pos (c.maxDur / ds) with h0 | h0
+            · rw [h0] at b4; omega
+            · exact h0
+          refine ⟨rfl, by simp only []; omega, by simp only []; exact_mod_cast p1, ?_, by simp only []; omega,
+            by simp only []; exact_mod_cast p2, ?_, rfl⟩
+          · simp only []; exact_mod_cast a4
+          · simp only []; exact_mod_cast b4
+
+/-! ### note-performance: input blocks and step count -/
+open Gen
+
+theorem npOneHots_spec (ns ks : List Int) (h : LabelInRange ks ns) :
+    npOneHots ns ks = .ok ((List.zipWith (fun n k => oneHotVec n.toNat k.toNat) ns ks).flatten) := by
+  induction ns generalizing ks with
+  | nil =>
+    cases ks with
+    | nil => rfl
+    | cons k ks => exact absurd h (by unfold LabelInRange; exact fun x => x)
+  | cons n ns ih =>
+    cases ks with
+    | nil => exact absurd h (by unfold LabelInRange; exact fun x => x)
+    | cons k ks =>
+      unfold LabelInRange at h
+      obtain ⟨h0, h1, h2⟩ := h
+      unfold npOneHots
+      have hk : pySet (zeros n) k 1 = .ok (oneHotVec n.toNat k.toNat) := by
+        obtain ⟨kn, rfl⟩ : ∃ kn : Nat, k = kn := ⟨k.toNat, by omega⟩
+        rw [pySet_nat _ _ _ (by simp [zeros]; omega)]
+        simp [zeros, oneHotVec]
+      simp only [hk, ih ks h2, bind, Except.bind, pure, Except.pure, List.zipWith_cons_cons, List.flatten_cons]
+
+theorem zipWith_oneHot_length (ns ks : List Int) (h : LabelInRange ks ns) :
+    (((List.zipWith (fun n k => oneHotVec n.toNat k.toNat) ns ks).flatten).length : Int) = ns.sum := by
+  induction ns generalizing ks with
+  | nil =>
+    cases ks with
+    | nil => rfl
+    | cons k ks => exact absurd h (by unfold LabelInRange; exact fun x => x)
+  | cons n ns ih =>
+    cases ks with
+    | nil => exact absurd h (by unfold LabelInRange; exact fun x => x)
+    | cons k ks =>
+      unfold LabelInRange at h
+      obtain ⟨h0, h1, h2⟩ := h
+      simp only [List.zipWith_cons_cons, List.flatten_cons, List.length_append, oneHotVec_length, List.sum_cons]
+      have := ih ks h2
+      omega
+
+theorem npStepsLoop_spec (E : NPEnc) (labels : List (List Int)) (out : List NPEvent)
+    (h : mapE (npClassIndexToEvent E) labels = .ok out) (s : Int) (last : Option NPEvent) :
+    npStepsLoop E labels s last = .ok (s + (out.map NPEvent.shift).sum, out.getLast?.or last) := by
+  induction labels generalizing out s last with
+  | nil =>
+    unfold mapE at h; injection h with h; subst h
+    simp [npStepsLoop]
+  | cons l ls ih =>
+    unfold mapE at h
+    cases hl : npClassIndexToEvent E l with
+    | error e => rw [hl] at h; cases h
+    | ok ev =>
+      rw [hl] at h
+      cases hr : mapE (npClassIndexToEvent E) ls with
+      | error e => rw [hr] at h; cases h
+      | ok rest =>
+        rw [hr] at h
+        injection h with h; subst h
+        unfold npStepsLoop
+        rw [hl]
+        simp only []
+        rw [ih rest hr]
+        simp only [List.map_cons, List.sum_cons, List.getLast?_cons]
+        congr 2
+        · omega
+        · cases rest.getLast? <;> simp
+
+/-! ### pianoroll: label <-> strictly increasing tuple -/
+open Gen
+
+/-- `Σ 2^(p - i)` over a tuple of pitches -/
+def powSum (i : Nat) (ev : List Nat) : Int := (ev.map (fun p => (2 : Int) ^ (p - i))).sum
+
+theorem powSum_shift (i : Nat) (ev : List Nat) (h : ∀ p ∈ ev, i + 1 ≤ p) :
+    powSum i ev = 2 * powSum (i + 1) ev := by
+  induction ev with
+  | nil => simp [powSum]
+  | cons p rest ih =>
+    have hp := h p (by simp)
+    have := ih (fun q hq => h q (by simp [hq]))
+    unfold powSum at *
+    simp only [List.map_cons, List.sum_cons]
+    have e : p - i = (p - (i + 1)) + 1 := by omega
+    rw [e, Int.pow_succ, this]
+    omega
+
+theorem powSum_nonneg (i : Nat) (ev : List Nat) : 0 ≤ powSum i ev := by
+  induction ev with
+  | nil => simp [powSum]
+  | cons p rest ih =>
+    unfold powSum at *
+    simp only [List.map_cons, List.sum_cons]
+    have : (0 : Int) ≤ 2 ^ (p - i) := Int.pow_nonneg (by omega)
+    omega
+
+theorem foldl_pow (ev : List Nat) (a : Int) :
+    ev.foldl (fun acc p => acc + (2 : Int) ^ p) a = a + powSum 0 ev := by
+  induction ev generalizing a with
+  | nil => simp [powSum]
+  | cons p rest ih =>
+    simp only [List.foldl_cons, ih]
+    unfold powSum
+    simp only [List.map_cons, List.sum_cons, Nat.sub_zero]
+    omega
+
+theorem prEventToLabel_eq (ev : List Nat) : prEventToLabel ev = powSum 0 ev := by
+  unfold prEventToLabel
+  rw [foldl_pow]; omega
+
+/-- decoding loop on the value of a strictly increasing tuple within `[i, i + k)` -/
+theorem prDecodeLoop_powSum (k i : Nat) (ev : List Nat) (hs : ev.Pairwise (· < ·))
+    (hr : ∀ p ∈ ev, i ≤ p ∧ p < i + k) :
+    prDecodeLoop k i (powSum i ev) = (ev, 0) ∧ powSum i ev < 2 ^ k := by
+  induction k generalizing i ev with
+  | zero =>
+    cases ev with
+    | nil => simp [prDecodeLoop, powSum]
+    | cons p rest => have := hr p (by simp); omega
+  | succ k ih =>
+    unfold prDecodeLoop
+    have h2 : (0 : Int) ≤ 2 := by omega
+    rw [Int.fdiv_eq_ediv_of_nonneg _ h2, Int.fmod_eq_emod_of_nonneg _ h2]
+    have hpow : (2 : Int) ^ (k + 1) = 2 * 2 ^ k := by rw [Int.pow_succ]; omega
+    by_cases hhead : ∃ rest, ev = i :: rest
+    · obtain ⟨rest, rfl⟩ := hhead
+      have hrest : ∀ p ∈ rest, i + 1 ≤ p ∧ p < i + 1 + k := by
+        intro p hp
+        have h1 := (List.pairwise_cons.mp hs).1 p hp
+        have h2 := hr p (by simp [hp])
+        omega
+      obtain ⟨ih1, ih2⟩ := ih (i + 1) rest (List.pairwise_cons.mp hs).2 hrest
+      have e : powSum i (i :: rest) = 1 + 2 * powSum (i + 1) rest := by
+        have := powSum_shift i rest (fun p hp => (hrest p hp).1)
+        unfold powSum at *
+        simp only [List.map_cons, List.sum_cons, Nat.sub_self, Int.pow_zero]
+        omega
+      rw [e]
+      have e1 : (1 + 2 * powSum (i + 1) rest) / 2 = powSum (i + 1) rest := by omega
+      have e2 : (1 + 2 * powSum (i + 1) rest) % 2 ≠ 0 := by omega
+      rw [e1, ih1]
+      simp only [e2, ne_eq, not_false_eq_true, if_true]
+      exact ⟨trivial, by omega⟩
+    · have hall : ∀ p ∈ ev, i + 1 ≤ p ∧ p < i + 1 + k := by
+        intro p hp
+        have h1 := hr p hp
+        refine ⟨?_, by omega⟩
+        rcases Nat.lt_or_ge i p with h | h
+        · exact h
+        · exfalso
+          have hpi : p = i := by omega
+          subst hpi
+          cases ev with
+          | nil => cases hp
+          | cons q rest =>
+            rcases List.mem_cons.mp hp with h3 | h3
+            · exact hhead ⟨rest, by rw [h3]⟩
+            · have := (List.pairwise_cons.mp hs).1 p h3
+              have := hr q (by simp)
+              omega
+      obtain ⟨ih1, ih2⟩ := ih (i + 1) ev hs hall
+      have e := powSum_shift i ev (fun p hp => (hall p hp).1)
+      rw [e]
+      have e1 : (2 * powSum (i + 1) ev) / 2 = powSum (i + 1) ev := by omega
+      have e2 : ¬ ((2 * powSum (i + 1) ev) % 2 ≠ 0) := by omega
+      rw [e1, ih1]
+      simp only [e2, if_false]
+      exact ⟨trivial, by omega⟩
+
+/-- the decoding loop on any `0 ≤ ci < 2^k` -/
+theorem prDecodeLoop_spec (k i : Nat) (ci : Int) (h0 : 0 ≤ ci) (h1 : ci < 2 ^ k) :
+    ∃ ev, prDecodeLoop k i ci = (ev, 0) ∧ ev.Pairwise (· < ·) ∧ (∀ p ∈ ev, i ≤ p ∧ p < i + k) ∧
+      powSum i ev = ci := by
+  induction k generalizing i ci with
+  | zero =>
+    have : ci = 0 := by simp at h1; omega
+    subst this
+    exact ⟨[], rfl, List.Pairwise.nil, by simp, by simp [powSum]⟩
+  | succ k ih =>
+    unfold prDecodeLoop
+    have h2 : (0 : Int) ≤ 2 := by omega
+    rw [Int.fdiv_eq_ediv_of_nonneg _ h2, Int.fmod_eq_emod_of_nonneg _ h2]
+    have hpow : (2 : Int) ^ (k + 1) = 2 * 2 ^ k := by rw [Int.pow_succ]; omega
+    obtain ⟨ev, e1, e2, e3, e4⟩ := ih (i + 1) (ci / 2) (by omega) (by omega)
+    rw [e1]
+    have hsh := powSum_shift i ev (fun p hp => (e3 p hp).1)
+    by_cases hodd : ci % 2 ≠ 0
+    · refine ⟨i :: ev, by simp only [hodd, ne_eq, not_false_eq_true, if_true], ?_, ?_, ?_⟩
+      · exact List.pairwise_cons.mpr ⟨fun p hp => by have := e3 p hp; omega, e2⟩
+      · intro p hp
+        rcases List.mem_cons.mp hp with h | h
+        · omega
+        · have := e3 p h; omega
+      · have : powSum i (i :: ev) = 1 + powSum i ev := by
+          unfold powSum; simp only [List.map_cons, List.sum_cons, Nat.sub_self, Int.pow_zero]
+        omega
+    · refine ⟨ev, by simp only [hodd, if_false], e2, fun p hp => by have := e3 p hp; omega, by omega⟩
 end NSV.C08
